@@ -328,3 +328,81 @@ def bmc(ks: List[int]) -> bool:
     except Exception:  # noqa: BLE001
         ok = False
     return fin(M, ok, ks=ks)
+
+
+# ---------------------------------------------------------------------------------------
+# L-READ-IND / L-READ-REJECT: the reader alone, from an ARBITRARY state (not only writer-mirrored ones),
+# one entry row (optional) + one reference, ids symbolic in [0, n+1]; compared with the spec's rules.
+
+def read_step(filled: List[bool], la: int, lr: int, has_entry: bool, eid: int, ref: int) -> bool:
+    """
+    pre: len(filled) == P["n"] and 0 <= la <= P["n"] and 0 <= lr <= P["n"] and 0 <= eid <= P["n"] + 1 and 0 <= ref <= P["n"] + 1
+    post: _
+    """
+    kind, n = P["kind"], P["n"]
+    try:
+        dec = LookupDecoder(lookup_size=n)
+        slots = [(f"v{p}" if filled[p] else None) for p in range(n)]  # forks on filled[p]: 2^n shapes
+        dec.data = deque(slots, maxlen=n)
+        dec.last_assigned_index = la
+        dec.last_reused_index = lr
+        # ---- spec (pure Python on the same symbolic integers)
+        spec_slots = list(slots)
+        s_la, s_lr = la, lr
+        legal = True
+        if has_entry:
+            i = eid if eid != 0 else s_la + 1
+            if 1 <= i <= n:
+                for p in range(n):
+                    if i == p + 1:
+                        spec_slots[p] = "NEW"
+                s_la = i
+            else:
+                legal = False
+        expect = None
+        if legal:
+            if kind == "name":
+                i = ref if ref != 0 else s_lr + 1
+            elif kind == "prefix":
+                i = ref if ref != 0 else s_lr
+            else:
+                i = ref
+            if kind == "prefix" and i == 0:
+                expect = ""
+            elif kind == "datatype" and ref == 0:
+                legal = False
+            elif 1 <= i <= n:
+                for p in range(n):
+                    if i == p + 1:
+                        expect = spec_slots[p]
+                if expect is None:
+                    legal = False
+                s_lr = i
+            else:
+                legal = False
+        # ---- the real reader
+        raised = False
+        got = None
+        try:
+            if has_entry:
+                dec.assign_entry(index=eid, value="NEW")
+            if kind == "name":
+                got = dec.decode_name_term_index(ref)
+            elif kind == "prefix":
+                got = dec.decode_prefix_term_index(ref)
+            else:
+                got = dec.decode_datatype_term_index(ref)
+        except Exception:  # noqa: BLE001
+            raised = True
+        if legal:
+            ok = (not raised) and got == expect and dec.last_assigned_index == s_la
+            if kind != "datatype":
+                ok = ok and dec.last_reused_index == s_lr
+            ok = ok and list(dec.data) == spec_slots
+        else:
+            ok = raised
+        if P.get("twin"):
+            ok = False
+    except Exception:  # noqa: BLE001
+        ok = False
+    return fin(M, ok, filled=filled, la=la, lr=lr, has_entry=has_entry, eid=eid, ref=ref)
